@@ -245,3 +245,16 @@ func dumpProgram(p parser.Program) string {
 	}
 	return fmt.Sprintf("(mkprogram %s %s)", coqList(vs), coqList(ss))
 }
+
+
+// parseSafe: parser.Parse, except that a crash of the parser (a seeded change can make it panic on some
+// texts) yields an empty tree with one error instead of killing the harness; the crash itself is observed
+// by the calls that are made under recover (CheckSource, Parse in the parser properties).
+func parseSafe(text string) (pr parser.ParseResult) {
+	defer func() {
+		if r := recover(); r != nil {
+			pr = parser.ParseResult{Source: text, Errors: []parser.ParserError{{Msg: "parser crashed: " + fmt.Sprint(r)}}}
+		}
+	}()
+	return parser.Parse(text)
+}
